@@ -49,6 +49,9 @@ def _g(vals, n2=None):
                      {"name": "@N2", "dtype": "float", "values": [i / 2 if i != 1 else None for i in range(len(vals))]}]}
 
 
+_HDR = "@H0.0 alpha be gamma de eps zeta eta th iota kap alpha be gamma"                     # 1 line in a 3.1 in cell, 3 lines in a 1.5 in cell
+_HEADING = "@G0:v0 alpha be gamma de eps zeta eta th iota kap alpha be gamma de eps zeta eta th iota kap alpha be gamma de eps zeta eta"  # 1 line at 6.25 in, 2 at 3 in
+
 ARCH = [
     {"kind": "table", "sections": [{"df": _t(3, 4), "body": {}, "headers": "default"}]},                                      # 0 plain 3 col
     {"kind": "table", "sections": [{"df": _t(3, 3), "body": {"text_color": ["red", "blue", "gold"]}, "headers": "default"}],
@@ -103,12 +106,20 @@ ARCH = [
     {"kind": "table", "page": {"nrow": 5, "page_footnote": "all", "page_source": "all", "border_last": "thick"},
      "sections": [{"df": _t(2, 7, "e"), "body": {"border_last": ""}, "headers": [{"text": ["@H0.0", "@H0.1"]}]}],
      "footnote": {"text": ["@F0"], "as_table": True}, "source": {"text": ["@S0"], "as_table": True}},
+    # 24 / 25: the same wrapping column header label, and 26 / 27: the same wrapping page_by heading, in a 6.25 in and in a 3 in
+    #          table with a tight nrow: line counts remembered by text alone move the page breaks of the second document
+    {"kind": "table", "page": {"nrow": 7}, "sections": [{"df": _t(2, 9, "h"), "body": {}, "headers": [{"text": [_HDR, "@H0.1"]}]}]},
+    {"kind": "table", "page": {"nrow": 7, "col_width": 3.0}, "sections": [{"df": _t(2, 9, "i"), "body": {}, "headers": [{"text": [_HDR, "@H0.1"]}]}]},
+    {"kind": "table", "page": {"nrow": 8}, "sections": [{"df": _g([_HEADING] * 5 + ["@G0:v1"] * 5), "body": {"page_by": ["@N0"]}, "headers": [{"text": ["@H0.0", "@H0.1"]}]}]},
+    {"kind": "table", "page": {"nrow": 8, "col_width": 3.0}, "sections": [{"df": _g([_HEADING] * 5 + ["@G0:v2"] * 5), "body": {"page_by": ["@N0"]},
+                                                                         "headers": [{"text": ["@H0.0", "@H0.1"]}]}]},
 ]
 _PNG2 = (b"\x89PNG\r\n\x1a\n" + (13).to_bytes(4, "big") + b"IHDR" + (12).to_bytes(4, "big") + (5).to_bytes(4, "big")
          + b"\x08\x02\x00\x00\x00" + bytes(8) + b"SECOND VERSION OF THE PLOT").hex()
 RAISES = {6}
 # archetype pairs built to interfere through measuring / colour / layout state: always in the quick tier
-KEY_PAIRS = {(16, 17), (17, 16), (1, 18), (18, 1), (21, 22), (22, 21), (4, 13), (13, 4), (19, 8), (8, 19), (23, 10), (10, 23)}
+KEY_PAIRS = {(16, 17), (17, 16), (1, 18), (18, 1), (21, 22), (22, 21), (4, 13), (13, 4), (19, 8), (8, 19), (23, 10), (10, 23),
+             (24, 25), (25, 24), (26, 27), (27, 26)}
 PLAIN_BODY = {0, 9, 12, 10, 15, 20, 21, 22, 23}         # single tables whose body/header specs reference no columns
 SHARE_SETS = [["page"], ["body"], ["footnote"], ["title"], ["header"], ["page", "footnote", "source", "title"], ["body", "header"],
               ["subline"], ["subline", "page_header", "page_footer"]]
